@@ -87,6 +87,9 @@ package memory
 
 // Set: one write section; afterwards the key holds item{val, expiry}, no other entry was added, removed or changed.
 //@ func (*Storage).Set
+// The map keeps the key string it is assigned with; the caller's key may be a view of a request buffer (strings have no
+// identity in the model, so "the stored key is a copy" is stated over the call history: checked on the body only).
+//@   ensures key-is-a-copy: called(@utils.CopyString)
 //@   requires lock-free-on-entry: !held(s.RWMutex)
 //@   lock s.RWMutex protects lkStore
 //@   requires map-made: s.data != nil
